@@ -250,6 +250,7 @@ Definition classify_txn (o : ostate) (t : txn_req) (obs : txn_resp) : N :=
     | Some (ShDelete k 0) =>
         match e_find k (e_cur (o_e o)), obs with
         | Some _, TOk _ true _ => F_guarded_zero
+        | None, TOk _ false _ => F_unguarded_missing      (* the guard "absent" holds, etcd deletes nothing and succeeds *)
         | _, _ => 0%N
         end
     | Some _ => 0%N
@@ -261,7 +262,7 @@ Definition hdr_of (obs : txn_resp) : Z := match obs with TOk h _ _ => h | TErr =
 
 Definition oracle_txn (ns : bytes) (o : ostate) (t : txn_req) (obs : txn_resp) (listing : option (list kv)) : ostate :=
   let se := o_e o in
-  let nr := if e_rev se <? hdr_of obs then hdr_of obs else e_rev se + 1 in
+  let nr := if e_now se <? hdr_of obs then hdr_of obs else e_now se + 1 in
   let '(se', eresp) := etcd_txn se nr t in
   let seen := Z.max (o_seen o) (hdr_of obs) in
   let res := o_reserved o || txn_has_reserved t in
